@@ -102,6 +102,10 @@ static const m_mod_hook_t vf_hook = { vf_on_start, vf_on_eval, vf_on_evt, vf_on_
 int vf_match(const void *reg, const char *topic) { (void)reg; (void)topic; return REG_NOMATCH; }
 #endif
 
+#ifndef VF_CUSTOM_KEY_HOOK
+void vf_key_create_hook(void) { }
+#endif
+
 static inline void vf_ctx(m_ctx_flags fl) { int r = m_ctx_register("ctx", fl, NULL); VF_ASSUME(r == 0); }
 static inline m_mod_t *vf_mod(int i, m_mod_flags fl, const void *ud) {
     int r = m_mod_register(vf_names[i], &vf_mods[i], &vf_hook, fl, ud);
